@@ -24,6 +24,9 @@ package main
 // (AddCommitAction / AddPreCommitAction), nb / nB ... ne (nested Db.Update / Db.Batch with the bound
 // context), sys (go on with ctx.GetSystemContext()).
 //
+// A transaction may also be a batch group ("tx g reuse nmembers member*"): several Db.Batch calls coalesced by bbolt into
+// one batch — see c07_c08_group.go for the case syntax, the way it is driven and its output record.
+//
 // Output: one record per transaction, joined by " | ":
 //
 //	r=<ok|err:kind|panic> same=<0|1> runs=<n> pre=[..] pa=[..] sync=[..] async=[..] ca=[..] dump=<-|[leaves]>
@@ -214,6 +217,8 @@ type txTx struct {
 	mode  byte
 	reuse bool
 	steps []txStep
+	// mode 'g': a batch group — several Db.Batch calls coalesced by bbolt into one batch (c07_c08_group.go)
+	members []txMember
 }
 
 type txCase struct {
@@ -470,6 +475,14 @@ func txParseCase(line string) *txCase {
 		}
 		tx := txTx{mode: p.next()[0], reuse: p.flag()}
 		m := p.nat()
+		if tx.mode == 'g' {
+			// "g" or "g:<observed schedule>" (the schedule is for the model only)
+			for j := 0; j < m; j++ {
+				tx.members = append(tx.members, p.member())
+			}
+			c.txs = append(c.txs, tx)
+			continue
+		}
 		for j := 0; j < m; j++ {
 			tx.steps = append(tx.steps, p.step())
 		}
@@ -575,6 +588,8 @@ type txRun struct {
 	bodyGoid uint64
 	shared   []boltz.EntityEventType
 	curRun   int // how often the transaction function of the running transaction has been started
+	grp      *txGroupRun // set while a batch group runs
+	hung     bool        // a batch group did not finish: goroutines are stuck inside bbolt, the database is not closed
 
 	// fault injection for the running operation
 	fault       string
@@ -703,6 +718,11 @@ func (r *txRun) logCallback(entry string) {
 	g := txGoid()
 	r.mu.Lock()
 	defer r.mu.Unlock()
+	if r.grp != nil {
+		// several bbolt transactions, committed on different goroutines: sorted out afterwards
+		r.grp.callbacks = append(r.grp.callbacks, txGroupCallback{goid: g, entry: entry})
+		return
+	}
 	if g == r.bodyGoid {
 		r.sync = append(r.sync, entry)
 	} else {
@@ -1048,7 +1068,7 @@ func txOpen(c *txCase, dir string) *txRun {
 	}
 	for i := 0; i < c.txl; i++ {
 		i := i
-		db.AddTxCompleteListener(func(boltz.MutateContext) { r.logCallback(fmt.Sprintf("X.%d", i)) })
+		db.AddTxCompleteListener(func(ctx boltz.MutateContext) { r.logCallback(fmt.Sprintf("X.%d", i) + r.groupMemberSuffix(ctx)) })
 	}
 	return r
 }
@@ -1245,6 +1265,9 @@ func (r *txRun) runSteps(ctx boltz.MutateContext, steps []txStep, i int) (int, e
 			ctx.AddPreCommitAction(func(boltz.MutateContext) error {
 				r.mu.Lock()
 				r.preRan = append(r.preRan, strconv.Itoa(tag))
+				if fails && r.grp != nil {
+					r.grp.markFailed()
+				}
 				r.mu.Unlock()
 				if fails {
 					return &txPreErr{tag: tag}
@@ -1369,13 +1392,26 @@ func txExec(line string) string {
 	// with its level before the database was opened
 	baseline := runtime.NumGoroutine()
 	r := txOpen(c, dir)
-	defer r.db.Close()
+	defer func() {
+		if !r.hung {
+			r.db.Close()
+		}
+	}()
 	txWaitQuiescent(baseline)
 	var outs []string
 	var ctx boltz.MutateContext
 	for _, tx := range c.txs {
 		if !tx.reuse || ctx == nil {
 			ctx = boltz.NewMutateContext(context.Background())
+		}
+		if tx.mode == 'g' {
+			var out string
+			out, ctx = r.runGroup(tx, ctx, baseline)
+			outs = append(outs, out)
+			if r.hung {
+				break
+			}
+			continue
 		}
 		outs = append(outs, r.runTx(tx, ctx, baseline))
 		if tx.mode == 'r' {
